@@ -467,6 +467,9 @@ fn hand_made() -> Vec<(String, Case)> {
         add("P-two-points", mode, vec![(0.0, 0.0, 'P'), (100.0, 50.0, 'n')], Some(100.0));
         add("P-four-points", mode, vec![(0.0, 0.0, 'P'), (100.0, 50.0, 'n'), (200.0, 0.0, 'n'), (300.0, 80.0, 'n')], Some(400.0));
         add("P-a-equals-c", mode, vec![(0.0, 0.0, 'P'), (100.0, 50.0, 'n'), (0.0, 0.0, 'n')], Some(100.0));
+        // the known finding `curve-nan-vertex`: inner perfect-curve segment with determinant 1 whose `d`
+        // cancels to 0 in f32 (Props/C05f.curve_nan_vertex_witness)
+        add("P-inner-det1-d-cancels", mode, vec![(0.0, 0.0, 'L'), (10.0, 0.0, 'n'), (3244.0, -2736.0, 'P'), (3225.0, 104.0, 'n'), (3208.0, 2645.0, 'n')], Some(300.0));
         // multi-segment
         add(
             "multi-LBPC",
